@@ -132,10 +132,10 @@ Proof. unfold flat. induction cs as [|c r IH]; [reflexivity|]. cbn [map flat_map
 Lemma w_code_singles cs : map dbcode (map DSingle cs) = cs.
 Proof. induction cs as [|c r IH]; [reflexivity|]. cbn [map dbcode]. f_equal. exact IH. Qed.
 
-Lemma w_key cs : ascii_key cs = true ->
-  utf8_encode_str cs = Ok (wflat (w_keyA cs)) /\ woks (w_keyA cs) /\ map dbcode (w_keyA cs) = cs.
+Lemma w_key (kenc : list Z -> list Z) (Hk : forall cs, ascii_key cs = true -> kenc cs = cs) cs : ascii_key cs = true ->
+  kenc cs = wflat (w_keyA cs) /\ woks (w_keyA cs) /\ map dbcode (w_keyA cs) = cs.
 Proof.
-  intros H. rewrite (ascii_encs cs H). unfold w_keyA. rewrite w_flat_singles, w_code_singles.
+  intros H. rewrite (Hk cs H). unfold w_keyA. rewrite w_flat_singles, w_code_singles.
   split; [reflexivity|]. split; [|reflexivity].
   unfold oks. apply Forall_forall. intros x Hx. apply in_map_iff in Hx. destruct Hx as (c & <- & Hc).
   unfold ascii_key in H. rewrite forallb_forall in H. specialize (H c Hc). cbn [dbchar_ok]. lia.
@@ -148,32 +148,45 @@ Section WideTheorems.
 Variable wcw : Z -> Z.
 Variable upper : Z -> list Z.
 Variable lower : list Z -> list Z.
+Variable kenc : list Z -> list Z.      (* key.encode(get_encoding(), "replace") under the double-byte codec *)
+Hypothesis kenc_ascii : forall cs, ascii_key cs = true -> kenc cs = cs.     (* the codec is ASCII-compatible *)
 
 Definition Rw := Rg dbchar dbbytes dbchar_ok dbcode.
 Definition OnW := OnG dbchar dbbytes dbchar_ok.
 Definition w_edit_key := g_edit_key ascii_key.
-Definition w_evs_ok := g_evs_ok dbchar dbbytes dbchar_ok MWide wcw ascii_key.
+Definition w_evs_ok := g_evs_ok dbchar dbbytes dbchar_ok MWide wcw kenc.
 
 (* left / right / backspace / delete act on one whole (single- or double-byte) character, an ASCII
    key / enter is inserted at the cursor: simulation of the character-level reference editor *)
 Theorem wide_keys_sim sb ss k w lay lay' :
   Rw sb ss -> w_edit_key k ->
-  let '(sb', sg, r) := bkeypress wcw MWide sb k w lay in
+  let '(sb', sg, r) := bkeypress wcw MWide kenc sb k w lay in
   Rw sb' (fst (ref_key (Width.cw wcw) upper lower ss k w lay')) /\
   r = snd (ref_key (Width.cw wcw) upper lower ss k w lay') /\
   chain (text sb) sg (text sb') /\ (r = Ok RUnhandled -> sg = []).
 Proof.
   exact (g_key_sim dbchar dbbytes dbchar_ok dbcode MWide wcw upper lower w_enc1_len w_prev w_next
-           ascii_key w_keyA w_key DSingle w_ascii sb ss k w lay lay').
+           kenc ascii_key w_keyA (w_key kenc kenc_ascii) DSingle w_ascii sb ss k w lay lay').
+Qed.
+
+(* ANY accepted key string - a typed double-byte character, or "?" for one the codec cannot represent -
+   whose bytes are the well-formed characters xs: exactly those characters are inserted at the cursor *)
+Theorem wide_any_key_sim sb ss cs xs w lay :
+  Rw sb ss -> bvalid_char wcw cs = Ok true -> kenc cs = dbflat xs -> Forall dbchar_ok xs ->
+  let '(sb', sg, r) := bkeypress wcw MWide kenc sb (KText cs) w lay in
+  Rw sb' (put ss (ins_at (text ss) (pos ss) (map dbcode xs)) (pos ss + zlen (map dbcode xs))) /\
+  r = Ok RHandled /\ chain (text sb) sg (text sb').
+Proof.
+  exact (g_text_key_sim dbchar dbbytes dbchar_ok dbcode MWide wcw upper lower w_enc1_len kenc sb ss cs xs w lay).
 Qed.
 
 (* the offset is never inside a double-byte character, along every history *)
 Theorem wide_run_on_boundary es sb :
   OnW sb -> w_evs_ok sb es ->
-  Forall (fun o => OnW (fst (fst o))) (snd (brun wcw MWide sb es)) /\ OnW (fst (brun wcw MWide sb es)).
+  Forall (fun o => OnW (fst (fst o))) (snd (brun wcw MWide kenc sb es)) /\ OnW (fst (brun wcw MWide kenc sb es)).
 Proof.
   exact (g_run_OnG dbchar dbbytes dbchar_ok dbcode MWide wcw upper lower w_enc1_len w_prev w_next (w_tpos wcw)
-           ascii_key w_keyA w_key DSingle w_ascii es sb).
+           kenc ascii_key w_keyA (w_key kenc kenc_ascii) DSingle w_ascii es sb).
 Qed.
 
 (* what OnW means: the offset is the end of a prefix of the character decomposition of the text *)
@@ -223,10 +236,10 @@ Proof.
   exists (Z.min b (a + col)). split; [lia|]. rewrite noff_id by lia. reflexivity.
 Qed.
 
-Lemma n_key cs : ascii_key cs = true ->
-  utf8_encode_str cs = Ok (nflat cs) /\ oks Z nok cs /\ map (fun b : Z => b) cs = cs.
+Lemma n_key (kenc : list Z -> list Z) (Hk : forall cs, ascii_key cs = true -> kenc cs = cs) cs : ascii_key cs = true ->
+  kenc cs = nflat cs /\ oks Z nok cs /\ map (fun b : Z => b) cs = cs.
 Proof.
-  intros H. rewrite (ascii_encs cs H), nflat_id, map_id. repeat split.
+  intros H. rewrite (Hk cs H), nflat_id, map_id. repeat split.
   unfold oks. apply Forall_forall. intros; exact I.
 Qed.
 
@@ -237,19 +250,35 @@ Section NarrowTheorems.
 Variable wcw : Z -> Z.
 Variable upper : Z -> list Z.
 Variable lower : list Z -> list Z.
+Variable kenc : list Z -> list Z.
+Hypothesis kenc_ascii : forall cs, ascii_key cs = true -> kenc cs = cs.
 
 Definition Rn := Rg Z nb1 nok (fun b => b).
 
 (* under a single-byte encoding the bytes model IS the character-level reference editor on bytes *)
 Theorem narrow_keys_sim sb ss k w lay lay' :
   Rn sb ss -> g_edit_key ascii_key k ->
-  let '(sb', sg, r) := bkeypress wcw MNarrow sb k w lay in
+  let '(sb', sg, r) := bkeypress wcw MNarrow kenc sb k w lay in
   Rn sb' (fst (ref_key (Width.cw wcw) upper lower ss k w lay')) /\
   r = snd (ref_key (Width.cw wcw) upper lower ss k w lay') /\
   chain (text sb) sg (text sb') /\ (r = Ok RUnhandled -> sg = []).
 Proof.
   exact (g_key_sim Z nb1 nok (fun b => b) MNarrow wcw upper lower n_enc1_len n_prev n_next
-           ascii_key (fun cs => cs) n_key (fun c => c) n_ascii sb ss k w lay lay').
+           kenc ascii_key (fun cs => cs) (n_key kenc kenc_ascii) (fun c => c) n_ascii sb ss k w lay lay').
+Qed.
+
+(* any accepted key: the bytes the codec gives (one byte per character, "?" for what it cannot
+   represent) are inserted at the cursor *)
+Theorem narrow_any_key_sim sb ss cs w lay :
+  Rn sb ss -> bvalid_char wcw cs = Ok true ->
+  let '(sb', sg, r) := bkeypress wcw MNarrow kenc sb (KText cs) w lay in
+  Rn sb' (put ss (ins_at (text ss) (pos ss) (kenc cs)) (pos ss + zlen (kenc cs))) /\
+  r = Ok RHandled /\ chain (text sb) sg (text sb').
+Proof.
+  intros R Hv.
+  pose proof (g_text_key_sim Z nb1 nok (fun b => b) MNarrow wcw upper lower n_enc1_len kenc sb ss cs (kenc cs) w lay R Hv) as G.
+  rewrite map_id in G. apply G; [symmetry; apply nflat_id|].
+  unfold oks. apply Forall_forall. intros; exact I.
 Qed.
 
 Theorem Rn_meaning sb ss : Rn sb ss -> text sb = text ss /\ pos sb = pos ss.
@@ -264,6 +293,7 @@ End NarrowTheorems.
 Section AnyMode.
 Variable wcw : Z -> Z.
 Variable m : tmode.
+Variable kenc : list Z -> list Z.
 
 Lemma insert_text_inv s t : Inv (fst (insert_text s t)).
 Proof.
@@ -284,13 +314,12 @@ Proof.
   cbn [fst]. change (Inv (set_edit_pos s (clampz (p - zlen (caption s)) 0 (zlen (text s))))). apply set_edit_pos_inv.
 Qed.
 
-Theorem bytes_pos_inv_step s e : Inv s -> Inv (fst (fst (bstep wcw m s e))).
+Theorem bytes_pos_inv_step s e : Inv s -> Inv (fst (fst (bstep wcw m kenc s e))).
 Proof.
   intros H. destruct e as [k w lay|b c rw w lay|f w lay|w lay|p]; cbn [bstep].
   - unfold bkeypress. destruct k.
     + destruct (bvalid_char wcw cs) as [[|]|]; try exact H.
-      destruct (utf8_encode_str cs) as [bs|]; [|exact H].
-      pose proof (insert_text_inv s bs) as I. destruct (insert_text s bs). exact I.
+      pose proof (insert_text_inv s (kenc cs)) as I. destruct (insert_text s (kenc cs)). exact I.
     + destruct (allow_tab s); [|exact H].
       pose proof (insert_text_inv s (spaces (8 - pos s mod 8))) as I. destruct (insert_text s (spaces (8 - pos s mod 8))). exact I.
     + destruct (multiline s); [|exact H].
@@ -349,12 +378,12 @@ Proof.
 Qed.
 
 Theorem bytes_pos_inv_run es : forall s, Inv s ->
-  Forall (fun o => Inv (fst (fst o))) (snd (brun wcw m s es)) /\ Inv (fst (brun wcw m s es)).
+  Forall (fun o => Inv (fst (fst o))) (snd (brun wcw m kenc s es)) /\ Inv (fst (brun wcw m kenc s es)).
 Proof.
   induction es as [|e r IH]; intros s H; [cbn; auto|].
   cbn [brun]. pose proof (bytes_pos_inv_step s e H) as I1.
-  destruct (bstep wcw m s e) as [[s1 sg] rt]. cbn [fst] in *.
-  destruct (IH s1 I1) as [A0 B]. destruct (brun wcw m s1 r) as [s2 outs]. cbn [fst snd] in *.
+  destruct (bstep wcw m kenc s e) as [[s1 sg] rt]. cbn [fst] in *.
+  destruct (IH s1 I1) as [A0 B]. destruct (brun wcw m kenc s1 r) as [s2 outs]. cbn [fst snd] in *.
   split; [constructor; assumption|assumption].
 Qed.
 
